@@ -53,8 +53,10 @@ macro "same_attrs" hp:ident : tactic =>
       Cont.isDisp, Cont.owes, afterClose_dispatching, afterClose_closing, afterClose_inserting, afterClose_owes,
       afterClose_readyFor, afterClose_atOpen]))
 
-theorem mainInv_trans {st st' : St} {l : Label} (hl : LockInv st) (h : MainInv st) (htr : Trans st l st') : MainInv st' := by
+theorem mainInv_trans {st st' : St} {l : Label} (hn : NoU st) (hl : LockInv st) (h : MainInv st)
+    (htr : Trans st l st') : MainInv st' := by
   cases htr with
+  | @closeStartU t s c hp | @closeEndU t s c hp => have := hn t; rw [hp] at this; simp [Pc.unlocked] at this
   | tick d => exact ⟨h.gi, h.fi, h.ci⟩
   | mstep => exact h
   | reqBegin hp | delBegin hp | openBegin hp | shutBegin hp | rcSweep hp | rcGet hp | rcOpen hp | rcSeal hp
